@@ -275,6 +275,11 @@ def gen_field_value(rng, c, enc):
         if t == "decimal":
             return gen_decimal(rng, w)
         v = gen_text(rng, w, enc)
+        r = rng.random()
+        if r < 0.15 and w >= 2:
+            v = v[:-1] + " "            # fixed text ending in a blank must come back unstripped
+        elif r < 0.22 and w >= 2:
+            v = " " + v[1:]
         return v
     cap = 99 if ft == "LLVAR" else 999
     if proc == "ICC":
